@@ -605,7 +605,7 @@ func runC18(c *Ctx, r *Report) {
 			r.Hold("R-C18.12", r.Key("R-C18.12", nil, "no-counted-fill", ""), token.NoPos, true, "key and nonce arrays are filled by range loops over the source or by copy (no counted loop to check)")
 		}
 	}
-	r.Floor("R-C18.4", "error variables of fallible steps in DecryptLinks", len(openErr), 2)
+	r.Floor("R-C18.4", "error variables of fallible steps in DecryptLinks", len(openErr), 1) // scoped `if err := …` forms share fewer variables
 	df := &Flow{P: p, Fn: dl, May: true, Entry: Facts{}}
 	df.Edge = func(cond ast.Expr, taken bool, f Facts) {
 		for _, a := range splitCond(cond, taken) {
